@@ -228,10 +228,16 @@ def run_check(
             else:
                 flaky.append({"case": r0["case"], "first": k0, "second": k1})
     if flaky:
-        print(f"HARNESS-ERROR property={prop}: {len(flaky)} failing case(s) did not reproduce")
-        print(json.dumps(flaky[0], default=str)[:3000])
-        return 2
-
+        # a failure that does not reproduce in a fresh process is nondeterminism the harness (or
+        # process-global library state) did not pin down: never reported as a VIOLATION
+        print(f"NOT-REPRODUCED property={prop}: {len(flaky)} failing case(s) did not reproduce in a fresh process")
+        print(json.dumps(flaky[0], default=str)[:1500])
+        repro_keys = {case_hash(r["case"]) for r in reproduced}
+        failing = [r for r in failing if case_hash(r["case"]) in repro_keys or
+                   "&".join(sorted(v["key"] for v in r["violations"])) in
+                   {"&".join(sorted(v["key"] for v in q["violations"])) for q in reproduced}]
+        if not failing:
+            return 2
     # ---- classify
     n_viol = 0
     known_hits: Dict[str, int] = {}
